@@ -636,8 +636,11 @@ impl<'b, 'a: 'b> FmtVisitor<'a> {
         let skip_span = ai.span;
         skip_out_of_file_lines_range_visitor!(self, ai.span);
 
+        let skip_context_saved = self.skip_context.clone();
+        self.skip_context.update_with_attrs(&ai.attrs);
         if self.visit_attrs(&ai.attrs, ast::AttrStyle::Outer) {
             self.push_skipped_with_span(ai.attrs.as_slice(), skip_span, skip_span);
+            self.skip_context = skip_context_saved;
             return;
         }
 
@@ -685,6 +688,7 @@ impl<'b, 'a: 'b> FmtVisitor<'a> {
             }
             _ => unreachable!(),
         }
+        self.skip_context = skip_context_saved;
     }
 
     pub(crate) fn visit_trait_item(&mut self, ti: &ast::AssocItem) {
